@@ -15,6 +15,7 @@ import ast
 from typing import List, Optional
 
 from ..builder import emits
+from ..model import is_helper_name as _is_helper_name
 from ..model import AnalysisError, Model
 from ..paths import Path, PathEnumerator, find_calls
 from ..report import Report
@@ -124,7 +125,7 @@ def f5(model: Model, rep: Report):
         for n in ast.walk(g.node):
             if isinstance(n, ast.Call) and isinstance(n.func, ast.Attribute) and isinstance(n.func.value, ast.Name) and n.func.value.id == g.self_name:
                 m = K.resolve(n.func.attr)
-                if m is not None and m.name.startswith("_") and not m.name.startswith("__") and m.kind == "method":
+                if m is not None and _is_helper_name(m.name) and m.kind == "method":
                     work.append(m)          # a private helper is a piece of flatten itself (F1 reads it in place): look inside
     calls = []
     for g in bodies:
